@@ -150,7 +150,14 @@ class Check(BaseCheck):
         return fails
 
     def search_cases(self):
-        return self.problems(self.seed + 7, 14 if self.quick else 100, 5 if self.quick else 30)
+        yield from self.problems(self.seed + 7, 14 if self.quick else 100, 5 if self.quick else 30)
+        # failing-input search only: a large, finely sampled float64 surface with two components (> 50000 vertices in a unit of area:
+        # size- and conditioning-dependent code paths of the eigen-solve show here, nowhere on the small meshes)
+        gv, gt = gen.grid(165, 165)
+        gv = np.array(gv, float); gv = gv / gv.max() * 0.8
+        gv[:, 2] = 0.02 * np.sin(9 * gv[:, 0]) * np.cos(7 * gv[:, 1])
+        v2, t2 = gen.union((gv, gt), (gv * np.array([1.0, 0.9, 1.0]), gt), shift=(2.0, 0.0, 0.0))
+        yield dict(kind="tri", v=v2, t=t2, k=4, lump=False, name="two-fine-sheets", dt="f64", pre=None)
 
     def oracle(self, case):
         v = np.asarray(case["v"], float); t = np.asarray(case["t"], dtype=np.int64); k = int(case["k"])
